@@ -4,7 +4,7 @@ Each decrypt_* function is proved to hand the library primitive exactly the RFC'
 additional data and ciphertext, to return what the record protection removes (explicit nonce/IV, padding, MAC),
 and to update only its own direction's cipher state.  AEAD objects and cipher contexts are recorders; block and
 stream decryption are stated as round trips (the context returns the protected plaintext structure)."""
-from pyvc.api import harness, eq, band, bor, bnot, len_, cat, const
+from pyvc.api import harness, eq, band, bor, bnot, len_, cat, const, implies, ite
 
 DEC = "tlexport.decryptor.Decryptor"
 SE = "tlexport.session.Session"
@@ -302,6 +302,90 @@ def h_inner(c, ctype):
         c.ensure("handshake_bytes_forwarded", len(hs) == 1 and eq(hs[0][0], content) and c.same_object(hs[0][1], isserver))
     else:
         c.ensure("alert_not_exported", len(tr) == 0 and len(hs) == 0)
+
+
+@harness(["C01", "C13"], "protect.tls13_handshake_walk", functions=[SE + ".handle_decrypted_tls_13_handshake_record"], timeout=20000)
+def h_walk(c):
+    """UNBOUNDED: a decrypted TLS 1.3 handshake record carries ANY number of handshake messages (type(1) || length(3) || body) of ANY
+    type - the RFC 8446 types and every other byte value alike (CompressedCertificate, private types ...).  Ghost description: start(q) =
+    offset of message q, start(q+1) = start(q) + 4 + its 24-bit length, fin(q) = number of Finished (type 20) messages among the first q.
+    Loop contract: at the head of iteration k the walk stands at start(k) and has switched the direction's keys fin(k) times; hence at
+    the end: the keys are switched exactly once per Finished message, for the record's direction, whatever the other messages are, the
+    walk raises nothing and touches nothing else of the session.  (A missed switch leaves the handshake keys in place and every
+    application record of the direction fails its tag: C01.)"""
+    if c.native:
+        return h_walk_native(c)
+    nm = c.int("n_messages", 0, None)
+    P = c.bytes("handshake_plaintext", min_len=0)
+    isserver = c.bool("isserver")
+    start, fin = c.uf("message_offset"), c.uf("finished_before")
+    c.assume(band(start(0) == 0, fin(0) == 0, start(nm) >= len_(P)))
+
+    def u24(p):
+        return (P[p] * 256 + P[p + 1]) * 256 + P[p + 2]
+
+    def msg_def(q):
+        inside = band(0 <= q, q < nm)
+        c.assume(implies(inside, band(start(q) >= 0, start(q) + 4 <= len_(P), start(q + 1) == start(q) + 4 + u24(start(q) + 1),
+                                      fin(q + 1) == fin(q) + ite(eq(P[start(q)], 20), 1, 0))))
+    gh = {"k": 0, "switched": 0, "other_calls": 0}
+
+    def behave(m, a, kw):
+        if m == "update_keys" and len(a) == 1 and not kw and c.same_object(a[0], isserver):
+            gh["switched"] = gh["switched"] + 1
+        else:
+            gh["other_calls"] += 1
+        return None
+    dec = c.recorder("decryptor", handler=behave)
+    from contracts.common import full_session
+    s = full_session(c, decryptor=dec, tls_version=c.enum(TV, "TLS13"), can_decrypt=True)
+    before = dict(s.attrs)
+
+    def ghost(phase, e):
+        if phase == "havoc":
+            gh["k"] = c.fresh_int("message_index", 0, None)
+            msg_def(gh["k"])
+            gh["switched"] = fin(gh["k"])
+        elif phase == "step":
+            gh["k"] = gh["k"] + 1
+            c.cover("iteration")
+
+    def inv(e):
+        k = gh["k"]
+        return band(0 <= k, k <= nm, eq(e.index, start(k)), eq(gh["switched"], fin(k)))
+    c.loop(SE + ".handle_decrypted_tls_13_handshake_record", "while index < len(plaintext)", invariant=inv, decreases=lambda e: nm - gh["k"],
+           ghost_step=ghost, havoc={"handshake_type": lambda cur: None, "length": lambda cur: None})
+    msg_def(0)
+    out = c.method(s, "handle_decrypted_tls_13_handshake_record", P, isserver)
+    c.ensure("no_raise_for_any_message_type", out.exc is None, kind="raises")
+    if out.exc is not None:
+        return
+    c.ensure("walk_ends_after_the_last_message", c.prove(eq(gh["k"], nm)))
+    c.ensure("keys_switched_once_per_finished_message_for_the_records_direction", c.prove(eq(gh["switched"], fin(nm))))
+    c.ensure("decryptor.nothing_else_called", gh["other_calls"] == 0)
+    c.ensure("frame.session_otherwise_untouched", set(s.attrs) == set(before) and all(s.attrs[a] is before[a] for a in before), kind="frame")
+    c.cover("returned")
+
+
+h_walk.must_cover = ["returned", "iteration"]
+
+
+def h_walk_native(c):
+    """native evaluation: a record of up to five messages of arbitrary types and body lengths; reference = count of type-20 messages"""
+    msgs, want = b"", 0
+    for i in range(c.int("n_messages", 0, 5)):
+        t = [20, 11, 8, 25, 15, 4, 24][c.int("kind%d" % i, 0, 6)] if c.int("common%d" % i, 0, 1) else c.int("type%d" % i, 0, 255)
+        body = bytes([0x30 + i]) * c.int("len%d" % i, 0, 6)
+        msgs += bytes([t]) + len(body).to_bytes(3, "big") + body
+        want += t == 20
+    isserver = c.bool("isserver")
+    seen = []
+    dec = c.recorder("decryptor", handler=lambda m, a, k: seen.append((m, tuple(a))))
+    from contracts.common import full_session
+    s = full_session(c, decryptor=dec, tls_version=c.enum(TV, "TLS13"), can_decrypt=True)
+    out = c.method(s, "handle_decrypted_tls_13_handshake_record", msgs, isserver)
+    c.ensure("no_raise_for_any_message_type", out.exc is None, kind="raises")
+    c.ensure("keys_switched_once_per_finished_message_for_the_records_direction", seen == [("update_keys", (isserver,))] * want)
 
 
 # ---- hellos and the handshake state machine -------------------------------------------------------------------
